@@ -24,6 +24,10 @@ def res_exhaustive(prop, tier, seed, bins, tag):
     import checklib
     return checklib.res_exhaustive_stage(prop, tier, seed, bins, tag)
 
+def hll_accuracy(prop, tier, seed, bins, tag):
+    import checklib
+    return checklib.hll_accuracy_stage(prop, tier, seed, bins, tag)
+
 def P(stages, tb=None, assumptions=None, profiles=None):
     return {'stages': stages, 'trusted_base': TB_COMMON + (tb or []), 'assumptions': AS_COMMON + (assumptions or []),
             'profiles': profiles or ['debug']}
@@ -33,6 +37,8 @@ PROPS = {
     'C17': P([disc('hll')]),
     'C09': P([disc('lossy')], assumptions=['with_width(w): epsilon() = fl(1/w); theorems use the exact rational relation 1 <= eps*width, the oracle uses exact integer arithmetic on width (the one-rounding difference of fl(1/w) is not modelled)', 'query(threshold): the bound ceil((threshold-eps)*n) is a float computation; generated thresholds avoid values whose bound is within 1e-6 of an integer']),
     'C18': P([disc('res')]),
+    'C03': P([hll_accuracy, disc('hllc', 'hll')], tb=['translator tools/hlldata.py (regex over decimal literals of data.rs and the constants of am()/count() in mod.rs -> Gen/HllData.v, regenerated every run)', 'count(): generic model run with OCaml native binary64 and libm log (same glibc as the crate); modelled std: slice::binary_search_by as implemented in the installed toolchain'], assumptions=['the sentence about RMS / mean / 3-sigma tail of the relative error over hash seeds is NOT proved (bias rows are empirical); it is searched statistically only after a proof or correspondence break', 'glibc log agrees between OCaml and Rust']),
+    'C20': P([disc('hser')], tb=['serde/serde_json are modelled: a document is a list of (field, value); JSON syntax and numeric typing are serde_json\'s']),
     'C05': P([res_exhaustive, disc('res')], assumptions=['rand 0.8.8 gen_range / gen_range(0.0..1.0) are modelled from source; that a PRNG delivers uniform words is an assumption (given uniform words, gen_range is exactly uniform on accepted words: lemma lemire_accept_iff)', 'beyond n = 4k+1 the size of the bias of gap sampling (constant p during a gap) is NOT bounded by a theorem; the gap law itself is proved']),
     'C10': P([disc('heap')]),
     'C16': P([disc('td')], tb=['t-digest: theorems are over the exact-rational (Q) instance of the generic model; the correspondence runs the same generic model with OCaml native binary64 arithmetic (arith record in ocaml/driver.ml) and the scale-function limits f_inv(f(q0,n)+1,n) logged from the crate\'s own ScaleFunction calls; IEEE rounding is the gap between the two instances'], assumptions=['floating-point accumulation error is outside the theorems (the property allows it); the oracle compares with n*4 ulp relative tolerance']),
